@@ -126,6 +126,40 @@ func c04Input(r *core.Rand) inputs.Input {
 	return in
 }
 
+var corpusChains []lib.Res
+
+// siblingExts lists the file extensions of the formats that share corpus entry e's
+// parent chain (its siblings in the tree, as far as the repository's samples show them).
+func siblingExts(e int) []string {
+	n := len(inputs.Corpus())
+	if corpusChains == nil {
+		corpusChains = make([]lib.Res, n)
+		for i := 0; i < n; i++ {
+			corpusChains[i] = lib.B(inputs.Input{Fam: "corpus", V: i}.Bytes(), 0)
+		}
+	}
+	me := corpusChains[e]
+	if me.Nil || len(me.Chain) < 2 {
+		return nil
+	}
+	var out []string
+	seen := map[string]bool{me.Chain[0].Ext: true, "": true}
+	for i, c := range corpusChains {
+		if i == e || c.Nil || len(c.Chain) != len(me.Chain) || seen[c.Chain[0].Ext] {
+			continue
+		}
+		same := true
+		for k := 1; k < len(c.Chain); k++ {
+			same = same && c.Chain[k] == me.Chain[k]
+		}
+		if same {
+			seen[c.Chain[0].Ext] = true
+			out = append(out, c.Chain[0].Ext)
+		}
+	}
+	return out
+}
+
 // sweepChunk is the number of corpus entries one sweep run covers.
 const sweepChunk = 8
 
@@ -163,6 +197,13 @@ func sweepPlan(seed uint64, g int) *Plan {
 		}
 		ops = append(ops, Op{Kind: "reader", In: &in, Del: randDelivery(r, len(in.Bytes()), 0)})
 		ops = append(ops, Op{Kind: "file", In: &in})
+		// the same content under the names of its sibling formats (same parent in the
+		// tree), and under a common extension: a name says nothing about the content
+		sibs := siblingExts(e)
+		for k := 0; k < 2 && k < len(sibs); k++ {
+			ops = append(ops, Op{Kind: "file", In: &in, NameExt: sibs[(g/chunks+k)%len(sibs)]})
+		}
+		ops = append(ops, Op{Kind: "file", In: &in, NameExt: extMenu[(e+g)%len(extMenu)]})
 		ops = append(ops, Op{Kind: "detect", In: &in, Reuse: true, Slot: 1 + (e % 3)})
 		if e%2 == 1 {
 			ops = append(ops, Op{Kind: "use", Slot: 1 + ((e - 1) % 3)})
@@ -407,6 +448,7 @@ func (c *c04) Plan(seed uint64, tier string, worker, workers, idx int) *Plan {
 			default:
 				op.Kind = "file"
 				op.Del = randDelivery(r, len(in.Bytes()), 15)
+				op.NameExt = nameExt(r)
 			}
 			// some results are kept by the caller and looked at again later, after the
 			// buffer they were detected in has been reused for other content
